@@ -6,35 +6,32 @@ PID = "C11"
 MODEL_TARGETS = ["Generated", "FlatLine"]
 PROPS_TARGETS = ["Props_C11"]
 SUPPORT_TARGETS = ["FloatExact"]
-TRUSTED_BASE = ["modelled, not verified: np.median of timedelta64 (even counts average the middle pair), the ns->s floor "
-                "cast, (int(thr)/float).astype(int) truncation, np.lib.stride_tricks.as_strided of a masked array "
+TRUSTED_BASE = ["modelled, not verified: np.median of timedelta64 (even counts average the middle pair), the division by "
+                "np.timedelta64(1, 's'), (thr / float).astype(int) truncation, np.lib.stride_tricks.as_strided of a masked array "
                 "(raw data, NaN at missing), masked min/max ignoring masked entries, np.ma.filled(.., False), np.insert"]
-ASSUMPTIONS = ["regularly sampled axes with a whole-second step D >= 1, durations >= 0, values/tolerances on the dyadic grid",
-               "a non-integer sampling step is a known finding (F18): the code floors the step to whole seconds"]
+ASSUMPTIONS = ["regularly sampled axes with any positive step (whole seconds, 1.5 / 2.5 s, 0.25 / 0.5 / 0.75 s), durations >= 0, "
+               "values, tolerances, steps and durations on dyadic grids (the float quotient duration / step is then exact)"]
 
 
-def sig_fractional(f):
-    return f.get("function") == "flat_line_test" and bool(f.get("case", {}).get("fractional"))
-
-
-SIGNATURES = {"flat_line_fractional_step_floored": sig_fractional}
+SIGNATURES = {}
 
 
 def run(ctx):
     ad = ff.FlatLine()
     rng, tier = ctx["rng"], ctx["tier"]
 
+    fr = ff.gen_flat_fractional(tier, rng)
+
     def gen(tier, rng):
-        return [c for c in ff.gen_flat(tier, rng) if ad.in_domain(c)]
+        return [c for c in ff.gen_flat(tier, rng) if ad.in_domain(c)] + fr
     out = adapters.simple_run(
         ctx, [(ad, gen)],
         rule="exhaustive n<=6 over {missing,0,1/64,2}, n<=4 over a 5-letter alphabet, random n=5..6, the full D x suspect x "
-             "fail x tolerance grid on fixed series, plateaus of length k-1,k,k+1, on regular axes with D in {1,2,60,900}; "
+             "fail x tolerance grid on fixed series, plateaus of length k-1,k,k+1, on regular axes with D in {1,2,60,900} and, random plateaus, D in {0.25,0.5,0.75,1.5,2.5}; "
              "durations in units of D: {0, D/2, D, 1.5D, 2D, 3D, (n+1)D}; tolerance on both sides of the window range. "
              "non-trivial = >=2 distinct flags or raises")
-    # the property itself (true fractional step) vs the implementation on non-integer steps: known finding F18
+    # the property itself (true fractional step), computed independently with exact fractions, vs the implementation
     fails = []
-    fr = ff.gen_flat_fractional(tier, rng)
     for c in fr:
         got, _ = ad.impl(c)
         want = ff.property_expected(c)
